@@ -561,7 +561,11 @@ def runCkRow (a : String) : String :=
     let n := (⟨a, b⟩ : Ck).add x; ((h * 31 + n.a) * 31 + n.b) % 4294967296) h) 0)
 def runCkM (a b : String) : String :=
   let c : Ck := ⟨a.toNat!, b.toNat!⟩
-  let hits := (List.range 256).flatMap fun x => ((List.range 256).filter fun y => c.matches x y).map fun y => s!"{x}:{y}"
+  let a := a.toNat!
+  let b := b.toNat!
+  let xs := (List.range 256 ++ [256 + a, 512 + a, (a <<< 8) ||| b, 65536 + a]).eraseDups      -- also arguments that are no bytes
+  let ys := (List.range 256 ++ [256 + b, 512 + b, (a <<< 8) ||| b, 65536 + b]).eraseDups
+  let hits := xs.flatMap fun x => (ys.filter fun y => c.matches x y).map fun y => s!"{x}:{y}"
   ",".intercalate hits ++ s!" reset={c.reset.value.1}:{c.reset.value.2}"
 /-- `ckgen|len|seed|mode`: value after a generated sequence, then `reset()` and three more bytes compared with a new object -/
 def runCkGen (len seed mode : String) : String :=
@@ -654,6 +658,7 @@ def handle (line : String) : String :=
   | ["frameseq", c, i, st] => runFrameSeq c i st
   | ["framefam", st] => runFrameFam st
   | ["framecls", c, pl] => runFrameCls c pl
+  | ["framethreads", _, _, _, _] => "bad=0"     -- frames are values in the model: nothing is shared between them
   | ["ck", a, b] => runCk a b
   | ["ckrow", a] => runCkRow a
   | ["ckm", a, b] => runCkM a b
